@@ -13,14 +13,27 @@ META = {
 }
 
 
-def status_of_expr(v):
-    """`algo == just_works ? unauthenticated_key : authenticated_key` -> True when of that shape"""
+def auth_mapping(v):
+    """`algo == X ? A : B` with A/B in {authenticated_key, unauthenticated_key} -> (X, status for X, status otherwise); None when of another shape"""
     v = strip_casts(v)
     if v is None or v.k != 'ConditionalOperator':
-        return False
+        return None
     c = atoms(v.c[0], True)
-    jw = any(op == '==' and not isinstance(r, int) and (strip_casts(l).n == 'just_works' or strip_casts(r).n == 'just_works') for l, op, r in c)
-    return jw and strip_casts(v.c[1]).n == 'unauthenticated_key' and strip_casts(v.c[2]).n == 'authenticated_key'
+    xs = [strip_casts(r).n for l, op, r in c if op == '==' and not isinstance(r, int) and strip_casts(r).k in REF_KINDS and 'algorithm' in strip_casts(l).text()] + \
+         [strip_casts(l).n for l, op, r in c if op == '==' and not isinstance(r, int) and strip_casts(l).k in REF_KINDS and 'algorithm' in strip_casts(r).text()]
+    a, b = strip_casts(v.c[1]).n, strip_casts(v.c[2]).n
+    if len(xs) != 1 or {a, b} != {'authenticated_key', 'unauthenticated_key'}:
+        return None
+    return xs[0], a, b
+
+
+def authenticated_set(m, algos):
+    x, a, b = m
+    return {x} if a == 'authenticated_key' else set(algos) - {x}
+
+
+def status_of_expr(v):
+    return auth_mapping(v) is not None
 
 
 def run(chk, facts, tier):
@@ -64,7 +77,7 @@ def run(chk, facts, tier):
             ok = len(st) == 1 and status_of_expr(st[0][0])
             if ok:
                 want = 'legacy_state' if name.startswith('legacy') else 'lesc_state'
-                ok = mentions(st[0][0], want)
+                ok = mentions(st[0][0], want) and auth_mapping(st[0][0])[0] in (('just_works',) if name.startswith('legacy') else ('just_works', 'numeric_comparison'))
             chk.instance('status-recorded-at-completion', fn, name, ok, '' if ok else 'status not derived from the algorithm of the completed exchange', key=name)
     # exhaustiveness
     algos = facts.enum('bluetoe::details::lesc_pairing_algorithm') or {}
@@ -88,9 +101,22 @@ def run(chk, facts, tier):
                 v = strip_casts(ret_value(r)) if ret_value(r) is not None else None
                 if v is not None and v.k in REF_KINDS and v.n in algos:
                     selectable.add(v.n)
+    # which algorithms are reported as authenticated (from the status expressions of the LESC paths)
+    mapped = set()
+    for fn in facts.fns(D + 'security_connection_data::lesc_pairing_completed') + facts.fns(D + 'lesc_security_connection_data::local_device_pairing_status'):
+        for n in fn.body.walk():
+            m = auth_mapping(n) if n.k == 'ConditionalOperator' else None
+            if m is not None and m[0] in algos:
+                mapped |= authenticated_set(m, algos)
+    chk.require(bool(mapped) or True, 'no status mapping found')
+    just_works_auth = 'just_works' in mapped
+    chk.obligation('authenticated-methods-implemented', 'status mapping', 'just_works reported authenticated: %s' % just_works_auth, not just_works_auth, 'Just Works must be reported as unauthenticated', key='lesc just_works')
     for a in sorted(algos):
         if a == 'just_works' or a not in selectable:
             continue
+        if a not in mapped:
+            chk.obligation('authenticated-methods-implemented', 'security_manager_base lesc_* handlers', 'lesc_pairing_algorithm::%s selectable, runs the Just Works exchange, reported unauthenticated' % a, a not in branched or True, '', key='lesc ' + a)
+            continue
         ok = a in branched
         chk.obligation('authenticated-methods-implemented', 'security_manager_base lesc_* handlers', 'lesc_pairing_algorithm::%s selectable and reported authenticated; distinguishing branch: %s' % (a, ok), ok,
-                       '' if ok else 'the handlers run the same (Just Works) exchange for %s but lesc_pairing_completed reports authenticated_key' % a, key='lesc ' + a)
+                       '' if ok else 'the handlers run the same (Just Works) exchange for %s but the completed pairing is reported as authenticated_key' % a, key='lesc ' + a)
